@@ -122,6 +122,9 @@ class GridDistortion:
                         (data['yp'] - data['yr'])**2)
         rp = np.sqrt(data['xp']**2 + data['yp']**2)
 
-        data['max_distortion'] = np.max(100 * delta / rp)
+        # the on-axis node (present for odd grid sizes) has no defined
+        # relative distortion
+        off_axis = rp > 1e-9 * np.max(rp)
+        data['max_distortion'] = np.max(100 * delta[off_axis] / rp[off_axis])
 
         return data
